@@ -773,12 +773,19 @@ class PSFn(ModFn):
         self.params["self"] = OBJ
         for a in args[1:]:
             txt = ast.unparse(a.annotation) if a.annotation is not None else None
-            if txt in ("object", "'PauliString'", "PauliString", "Self", "str | PauliString", "str | Self"): self.params[a.arg] = OBJ
+            if txt in ("object", "'PauliString'", "PauliString", "Self", "str | PauliString", "str | Self", "str | Self | PauliString"): self.params[a.arg] = OBJ
             elif txt == "int": self.params[a.arg] = Z
             else: bad(a, "parameter annotation %r" % txt)
         self.self_t = None
+        self.defaults = list(node.args.defaults)
+        if any(not (isinstance(d, ast.Constant) and isinstance(d.value, int)) for d in self.defaults): bad(node, "default value")
+        node.args.defaults = []
         self.mutating = any(isinstance(t, (ast.Subscript, ast.Attribute)) and isinstance(getattr(t.value, "value", t.value), ast.Name)
                             and getattr(t.value, "value", t.value).id == "self" and isinstance(t.ctx, ast.Store) for t in ast.walk(node))
+        for c in ast.walk(node):
+            if isinstance(c, ast.Call) and isinstance(c.func, ast.Attribute) and isinstance(c.func.value, ast.Name) and c.func.value.id == "self" \
+               and c.func.attr in tr.fns and getattr(tr.fns[c.func.attr], "mutating", False):
+                self.mutating = True
         if self.mutating:
             self.vars["self"] = OBJ
 
@@ -828,11 +835,30 @@ class PSFn(ModFn):
             c, t, g = self.expr(s.value, env)
             self.set_ret(t, s)
             return self.guard(g, "Ret (FRet %s, v_self)" % c)
+        if isinstance(s, ast.Expr) and isinstance(s.value, ast.Call) and self.mutating and self.method_call(s.value) is not None and self.method_call(s.value)[1].mutating:
+            args, fn = self.method_call(s.value)
+            if not args.startswith("v_self"): bad(s, "mutating call on another object")
+            return "(callM (%s %s) (fun _ v_self => %s))" % (fn.coq, args, self.block(rest, env, k))
+        # return a + b on PauliStrings: __add__
+        if isinstance(s, ast.Return) and isinstance(s.value, ast.BinOp) and isinstance(s.value.op, ast.Add) and not self.mutating:
+            a, ta, ga = self.expr(s.value.left, env)
+            if ta == OBJ:
+                b, tb, gb = self.expr(s.value.right, env)
+                fn = self.tr.fns.get("__add__")
+                if tb != OBJ or fn is None: bad(s, "+ of PauliStrings needs a translated __add__")
+                self.set_ret(fn.ret, s)
+                return self.guard(ga + gb, "(retcall (%s %s %s))" % (fn.coq, a, b))
         return ModFn.stmt_extra(self, s, rest, env, k)
 
     def block(self, stmts, env, k):
-        if stmts and isinstance(stmts[0], ast.Return) and getattr(self, "mutating", False):
-            return self.stmt_extra(stmts[0], stmts[1:], env, k)
+        if stmts and isinstance(stmts[0], ast.Return) and (getattr(self, "mutating", False) or isinstance(stmts[0].value, ast.BinOp)):
+            x = self.stmt_extra(stmts[0], stmts[1:], env, k)
+            if x is not None:
+                return x
+        if stmts and isinstance(stmts[0], ast.Expr) and isinstance(stmts[0].value, ast.Call) and getattr(self, "mutating", False):
+            x = self.stmt_extra(stmts[0], stmts[1:], env, k)
+            if x is not None:
+                return x
         if stmts and isinstance(stmts[0], ast.Assign) and len(stmts[0].targets) == 1 and isinstance(stmts[0].targets[0], (ast.Subscript, ast.Attribute)):
             x = self.stmt_extra(stmts[0], stmts[1:], env, k)
             if x is not None:
@@ -858,7 +884,11 @@ class PSFn(ModFn):
                 shape = (ast.unparse(sl.lower) if sl.lower else None, ast.unparse(sl.upper) if sl.upper else None, ast.unparse(sl.step) if sl.step else None)
                 if shape == (None, None, "2"): return "(evens %s)" % c, BITS, g
                 if shape == ("1", None, "2"): return "(odds %s)" % c, BITS, g
-                bad(e, "slice other than [::2] and [1::2]")
+                if sl.lower is not None and sl.upper is not None and sl.step is None:
+                    a, ta, ga = self.expr(sl.lower, env); b, tb, gb = self.expr(sl.upper, env)
+                    if ta != Z or tb != Z: bad(e, "slice bounds")
+                    return "(slice_range %s %s %s)" % (c, a, b), BITS, g + ga + gb
+                bad(e, "slice other than [::2], [1::2], [a:b]")
             ic, it_, ig = self.expr(sl, env)
             if it_ != Z: bad(e, "index must be int")
             return "(list_get false %s %s)" % (c, ic), B, g + ig + [("(idx_ok %s %s)" % (c, ic), "Raised EIndex")]
@@ -872,6 +902,14 @@ class PSFn(ModFn):
                 a, ta, ga = self.expr(e.args[0], env); b, tb, gb = self.expr(e.args[1], env)
                 if ta != BITS or tb != BITS: bad(e, "count_and of non-bitarrays")
                 return "(count_and %s %s)" % (a, b), Z, ga + gb
+            if isinstance(fn_, ast.Name) and fn_.id == "count_or" and len(e.args) == 2 and not e.keywords:
+                a, ta, ga = self.expr(e.args[0], env); b, tb, gb = self.expr(e.args[1], env)
+                if ta != BITS or tb != BITS: bad(e, "count_or of non-bitarrays")
+                return "(count_or %s %s)" % (a, b), Z, ga + gb
+            if isinstance(fn_, ast.Name) and fn_.id == "PauliString" and not e.args and len(e.keywords) == 1 and e.keywords[0].arg == "n":
+                c, t, g = self.expr(e.keywords[0].value, env)
+                if t != Z: bad(e, "PauliString(n=...) of a non-int")
+                return "(fresh_bits (repeat false (Z.to_nat (2 * %s))))" % c, OBJ, g + [("(0 <=? %s)" % c, "Raised (EUser \"ValueError\"%string)")]
             if isinstance(fn_, ast.Name) and fn_.id == "bitarray" and len(e.args) == 1 and not e.keywords:
                 c, t, g = self.expr(e.args[0], env)
                 if t != Z: bad(e, "bitarray of non-int")
@@ -914,6 +952,15 @@ class PSFn(ModFn):
             return None
         if isinstance(e, ast.UnaryOp) and isinstance(e.op, ast.USub) and isinstance(e.operand, ast.Constant) and isinstance(e.operand.value, int) and not isinstance(e.operand.value, bool):
             return "(-%d)" % e.operand.value, Z, []
+        if isinstance(e, ast.Compare) and len(e.ops) == 1 and isinstance(e.ops[0], (ast.Lt, ast.LtE, ast.Gt, ast.GtE, ast.NotEq)):
+            a, ta, ga = self.expr(e.left, env)
+            if ta == BITS:
+                b, tb, gb = self.expr(e.comparators[0], env)
+                if tb != BITS: bad(e, "comparison of a bitarray with something else")
+                c = {ast.Lt: "(bits_ltb %s %s)" % (a, b), ast.Gt: "(bits_ltb %s %s)" % (b, a), ast.LtE: "(negb (bits_ltb %s %s))" % (b, a),
+                     ast.GtE: "(negb (bits_ltb %s %s))" % (a, b), ast.NotEq: "(negb (bits_eqb %s %s))" % (a, b)}[type(e.ops[0])]
+                return c, B, ga + gb
+            return None
         if isinstance(e, ast.Compare) and len(e.ops) == 1 and isinstance(e.ops[0], ast.Eq):
             a, ta, ga = self.expr(e.left, env)
             if ta == B and isinstance(e.comparators[0], ast.Constant) and e.comparators[0].value in (0, 1) and not isinstance(e.comparators[0].value, bool):
@@ -938,9 +985,10 @@ class PSFn(ModFn):
             fn = self.tr.fns[e.func.attr]
             scope = set(self.vars) | set(self.params)
             o, to, go = self.expr(e.func.value, scope)
-            if to != OBJ or len(e.args) != len(fn.params) - 1: bad(e, "method call shape")
+            dflt = getattr(fn, "defaults", [])
+            if to != OBJ or not (len(fn.params) - 1 - len(dflt) <= len(e.args) <= len(fn.params) - 1): bad(e, "method call shape")
             cs = [o]
-            for a in e.args:
+            for a in list(e.args) + dflt[len(dflt) - (len(fn.params) - 1 - len(e.args)):] if len(e.args) < len(fn.params) - 1 else list(e.args):
                 c, t, g = self.expr(a, scope)
                 if g: bad(a, "argument of a method call must be unguarded")
                 cs.append(c)
@@ -967,6 +1015,10 @@ class PSFn(ModFn):
             self.name, self.node.lineno, self.node.end_lineno, ", ".join(self.vars), self.coq, ps, coq_type(rt), inits, self.state_type(), pat(self.state()), term))
 
     def prepare(self):
+        body = [s for s in self.node.body if not (isinstance(s, ast.Expr) and isinstance(s.value, ast.Constant))]
+        if len(body) == 1 and isinstance(body[0], ast.Return) and isinstance(body[0].value, ast.BinOp) and isinstance(body[0].value.op, ast.Add):
+            self.ann, self.pure = {}, False      # `return a + b` on PauliStrings goes through __add__, which can raise
+            return
         if self.name == "__init__" and [ast.unparse(d) for d in self.node.args.defaults] == ["None"]:
             self.node.args.defaults = []        # `generators=None`: None behaves as the empty list (first statement: `if not generators: return`)
         ModFn.prepare(self)
@@ -976,7 +1028,8 @@ class PSFn(ModFn):
 
 class PSTranslator:
     WANT = ["__len__", "__eq__", "sign", "complex_conj", "commutes_with", "multiply", "adjoint_map", "__or__", "__xor__", "__matmul__", "is_identity",
-            "get_index", "get_diagonal_index", "tensor", "set_substring", "inc"]
+            "get_index", "get_diagonal_index", "tensor", "set_substring", "inc",
+            "__lt__", "__le__", "__gt__", "__ge__", "__ne__", "copy", "__copy__", "__add__", "expand", "get_substring", "__getitem__", "__setitem__", "get_count_non_trivially"]
     def __init__(self, repo):
         self.path = os.path.join(repo, "src", "paulie", "common", "pauli_string_bitarray.py")
         self.tree = ast.parse(open(self.path, newline=None, encoding="utf-8-sig").read())
@@ -1002,6 +1055,8 @@ class PSTranslator:
             node = self.defs.get(name)
             if node is None: raise Unsupported("PauliString.%s not found in the source" % name)
             f = PSFn(self, node)
+            if f.coq in [g.coq for g in self.fns.values()]:
+                f.coq += "_dunder"
             out.append(f.emit()); out.append("")
             self.fns[name] = f
         return "\n".join(out)
